@@ -72,6 +72,7 @@ def run_tlc(
     os.makedirs(WORK, exist_ok=True)
     meta = tempfile.mkdtemp(prefix="tlc_", dir=WORK)
     jopts = ["-XX:+UseParallelGC", "-Xmx" + heap, "-DTLA-Library=" + os.path.join(SPECS, "common")]
+    jopts.append("-Djava.io.tmpdir=" + meta)  # TLC leaves an empty tlc-<n> directory per run in the JVM's temp dir
     if dfs:
         jopts.append("-Dtlc2.tool.queue.IStateQueue=StateDeque")
     cmd = ["java"] + jopts + ["-cp", JAR, "tlc2.TLC", "-noGenerateSpecTE", "-metadir", meta]
